@@ -152,7 +152,7 @@ theorem addOrphan_shape (s : State) (b : BlockAbs) :
     ∃ keep c, (addOrphan s b).orphans = keep ++ [(b, c)] ∧ keep.Sublist s.orphans ∧
       (∀ o ∈ s.orphans, o ∈ keep ∨ o.1.hash ∈ (addOrphan s b).evicted) ∧
       (∀ x ∈ s.evicted, x ∈ (addOrphan s b).evicted) := by
-  unfold addOrphan
+  unfold addOrphan addOrphanB
   simp only []
   split
   · split
